@@ -346,4 +346,5 @@ c.check("order", _init_checks)
 c.raises("GeneratorError")
 c.raises("KeyError")
 c.raises("SystemExit")
-c.callers_inline = True
+# call sites (the boot orchestration, C07) see the constructor as: sets the three attributes, may reject the configuration
+c.modifies(**{"self._assignments": DictT(), "self._base_address": Int(), "self._envelopes": DictT()})
